@@ -15,6 +15,9 @@ inductive ErrKind where
   | integerOverflow
   /-- `Error::HuffmanDecoding(e)` -/
   | huffman (e : Huffman.Err)
+  /-- `Error::BufSize(TryFromIntError)`: a Huffman literal whose bit length + 16 does not fit `u32`
+      (the repair of D-06u; `len.try_into::<usize>()` never fails where `usize` is 64 bits) -/
+  | bufSize
 deriving Repr, DecidableEq
 
 inductive Res where
@@ -34,19 +37,67 @@ def decodePayload (flags len : Nat) (rest : List Nat) : Res :=
       | .ok v => .ok (flags / 2) v rest'
       | .error e => .err (.huffman e)
 
-/-- `prefix_string::decode(size, buf)`.  `none` = panic (`size - 1` on `u8` for `size = 0` in a
-    build with overflow checks; the panics of `prefix_int::decode`). -/
-def decode? (n : Nat) (bs : List Nat) : Option Res :=
+/-- `if flags & 1 == 1 { u32::try_from(len.saturating_mul(8).saturating_add(16))?; }` fails: the Huffman
+    flag is set and `len * 8 + 16` (saturating in `usize`, which changes nothing about the comparison with
+    `u32::MAX`) does not fit `u32`.  The Huffman decoder addresses its input in bits with `u32` positions
+    (`Huffman.hdecodeC`): with this refusal in front of it they cannot wrap (`C15_huffman_positions_fit`). -/
+def hugeHuffman (flags len : Nat) : Bool := flags % 2 == 1 && decide (2 ^ 32 ≤ len * 8 + 16)
+
+/-- `prefix_string::decode(size, buf)` with (`g = true`) or without (`g = false`: the body before the repair
+    of D-06u) the refusal of a Huffman literal too long for the decoder's `u32` bit positions.
+    `none` = panic (`size - 1` on `u8` for `size = 0` in a build with overflow checks; the panics of
+    `prefix_int::decode`). -/
+def decodeG? (g : Bool) (n : Nat) (bs : List Nat) : Option Res :=
   if n = 0 then none
   else
     match PrefixInt.decode? (n - 1) bs with
     | none => none
     | some .endOf => some (.err .unexpectedEnd)
     | some .overflow => some (.err .integerOverflow)
-    | some (.ok flags len rest) => some (decodePayload flags len rest)
+    | some (.ok flags len rest) =>
+      if (g && hugeHuffman flags len) = true then some (.err .bufSize)
+      else some (decodePayload flags len rest)
+
+/-- `prefix_string::decode(size, buf)` of the tree under check: which of the two bodies it has is read from
+    the source on every run (`H3.Gen.HuffDec.hugeLiteralRefused`; the translator refuses any third shape). -/
+def decode? (n : Nat) (bs : List Nat) : Option Res := decodeG? H3.Gen.HuffDec.hugeLiteralRefused n bs
+
+/-- `decodePayload` over the Huffman decoder with its machine arithmetic made explicit
+    (`Huffman.hdecodeC`); `none` = one of the decoder's `u32` / shift / index operations overflows. -/
+def decodePayloadC (flags len : Nat) (rest : List Nat) : Option Res :=
+  if rest.length < len then some (.err .unexpectedEnd)
+  else
+    let payload := rest.take len
+    let rest' := rest.drop len
+    if flags % 2 = 0 then some (.ok (flags / 2) payload rest')
+    else
+      match Huffman.hdecodeC payload with
+      | none => none
+      | some (.ok (v, _)) => some (.ok (flags / 2) v rest')
+      | some (.error e) => some (.err (.huffman e))
+
+/-- `decodeG?` with `decodePayloadC`: `none` = panic, now including the Huffman decoder's arithmetic.
+    `C15_huffman_positions_fit`: with the refusal (`g = true`) this is `decodeG? true` on EVERY input. -/
+def decodeGC? (g : Bool) (n : Nat) (bs : List Nat) : Option Res :=
+  if n = 0 then none
+  else
+    match PrefixInt.decode? (n - 1) bs with
+    | none => none
+    | some .endOf => some (.err .unexpectedEnd)
+    | some .overflow => some (.err .integerOverflow)
+    | some (.ok flags len rest) =>
+      if (g && hugeHuffman flags len) = true then some (.err .bufSize)
+      else decodePayloadC flags len rest
 
 /-- Total version for callers that pass a literal size in 2..9. -/
 def decode (n : Nat) (bs : List Nat) : Res := (decode? n bs).getD (.err .unexpectedEnd)
+
+/-- `decode(size, buf)` for a `Buf` made of several chunks: the length is read through `get_u8`, the test
+    is on `remaining()` (all chunks), the payload is taken with `copy_to_bytes(len)`, which gathers across
+    chunk boundaries — the answer is that for the concatenation, wherever the cuts are
+    (`C15_decode_chunking_independent`; engine `pstr decm` runs the real function over such a `Buf`: a
+    payload taken from `chunk()`, the first piece only, is cut short there). -/
+def decodeM? (n : Nat) (chunks : List (List Nat)) : Option Res := decode? n chunks.flatten
 
 /-- `prefix_string::encode(size, flags, value, buf)`: the bytes written; always Huffman-coded.
     `none` = panic.  `flags << 1 | 1` on `u8` drops the top bit of `flags`. -/
